@@ -663,7 +663,7 @@ func checkLenientAcceptors(c *fw.Ctx, rule string, specs ...string) {
 		if fn == nil {
 			continue
 		}
-		all := deepCallsTo(fn, func(string) bool { return true })
+		all := fw.AllDeepCalls(fn, stopExported)
 		has := func(sub ...string) bool {
 			for _, dc := range all {
 				n := fw.CalleeName(dc.Call)
